@@ -20,16 +20,21 @@ def op(rule, kind):
 
 
 # ------------------------------------------------------------------ selectors
+def L(x):
+    """a list-valued member, or nothing when the document has something else there"""
+    return x if isinstance(x, list) else []
+
+
 def steps(doc):
-    return [s for s in doc.get("steps") or [] if isinstance(s, dict)]
+    return [s for s in L(doc.get("steps")) if isinstance(s, dict)]
 
 
 def envs(doc):
     out = []
-    for e in doc.get("jobEnvironments") or []:
+    for e in L(doc.get("jobEnvironments")):
         out.append(e)
     for s in steps(doc):
-        for e in s.get("stepEnvironments") or []:
+        for e in L(s.get("stepEnvironments")):
             out.append(e)
     if isinstance(doc.get("environment"), dict):
         out.append(doc["environment"])
@@ -54,11 +59,11 @@ def actions(doc):
 
 
 def files(doc):
-    return [f for sc in scripts(doc) for f in (sc.get("embeddedFiles") or []) if isinstance(f, dict)]
+    return [f for sc in scripts(doc) for f in L(sc.get("embeddedFiles")) if isinstance(f, dict)]
 
 
 def job_params(doc, types=None):
-    return [p for p in doc.get("parameterDefinitions") or [] if isinstance(p, dict) and (types is None or p.get("type") in types)]
+    return [p for p in L(doc.get("parameterDefinitions")) if isinstance(p, dict) and (types is None or p.get("type") in types)]
 
 
 def spaces(doc):
@@ -66,7 +71,7 @@ def spaces(doc):
 
 
 def task_params(doc, types=None):
-    return [t for ps in spaces(doc) for t in ps.get("taskParameterDefinitions") or [] if isinstance(t, dict) and (types is None or t.get("type") in types)]
+    return [t for ps in spaces(doc) for t in L(ps.get("taskParameterDefinitions")) if isinstance(t, dict) and (types is None or t.get("type") in types)]
 
 
 def host_reqs(doc):
@@ -74,11 +79,11 @@ def host_reqs(doc):
 
 
 def amounts(doc):
-    return [a for h in host_reqs(doc) for a in h.get("amounts") or [] if isinstance(a, dict)]
+    return [a for h in host_reqs(doc) for a in L(h.get("amounts")) if isinstance(a, dict)]
 
 
 def attributes(doc):
-    return [a for h in host_reqs(doc) for a in h.get("attributes") or [] if isinstance(a, dict)]
+    return [a for h in host_reqs(doc) for a in L(h.get("attributes")) if isinstance(a, dict)]
 
 
 def pick(rng, l):
